@@ -787,6 +787,9 @@ func (g *Gen) decorate(op *Op) {
 			}
 		}
 	case "crashes":
+		if op.UpdStyle == "nil" {
+			return // what nil means is not specified: no "entirely present" to settle a crash against
+		}
 		if abandonable[op.K] && g.R.Chance(0.06) {
 			// the goroutine executing the operation unwinds in mid-flight
 			op.Abandon = g.R.Range(1, 14)
